@@ -13,7 +13,7 @@ def shape_proj(out):
 def run(chk, replay=None):
     rng = random.Random(chk.seed)
     th = chk.tier == 'thorough'
-    cases = (streams.corpus_lines() + streams.fixture_lines() + streams.crossclass_lines()[::2] + streams.deep_lines()[::2] + streams.grammar_lines(rng, 1500 if th else 250, 0.2) + streams.anyjson_lines(rng, 1500 if th else 300)
+    cases = (streams.corpus_lines() + streams.fixture_lines() + streams.crossclass_lines()[::2] + streams.long_value_lines() + streams.deep_lines()[::2] + streams.grammar_lines(rng, 1500 if th else 250, 0.2) + streams.anyjson_lines(rng, 1500 if th else 300)
              + streams.wrapper_lines(rng, 2000 if th else 250) + streams.search_lines(rng, None if th else 300))
     cfgs = streams.value_cfgs(rng, 10 if th else 4) + [Cfg(encrypt=True, key=streams.KEY, nums=True), Cfg(re='^(ssn|name)$', bools=True)]
     pair = streams.pairwise_cfgs()          # every pair of flag settings together at least once, on a part of the lines
@@ -79,6 +79,27 @@ def run(chk, replay=None):
                     if jtree.has_dup_keys(tin): continue
                     if shape_proj(ol) != jtree.shape(tin):
                         chk.violate('CLI: emitted line is not one JSON object of the input shape', {'flags': flags, 'input': l.decode('utf-8', 'replace')[:1500], 'output': ol.decode('utf-8', 'replace')[:1500]}, tags=['cli', 'shape']); break
+    # "every emitted line", also when the run cannot complete: a long log (the output several times larger than any buffer between the loop and the
+    # device) that ends in a line over the reader's limit, and the same log with the reader failing far into it - whatever has been written by then
+    # consists of whole lines, each one a JSON object
+    from vlib import streamlib
+    lim = streams.line_limit()
+    body = [l for l, i in all_cases if i['kind'] in ('grammar', 'fixture') and b'\n' not in l and len(l) < 3000]
+    bigdata = b''.join(body[i % len(body)] + b'\n' for i in range(330))
+    fcases = [{'data': bigdata, 'rfail': len(bigdata) * 9 // 10}, {'data': bigdata, 'rfail': len(bigdata) - 7}]
+    if lim is not None: fcases.append({'data': bigdata + b'{"a":"' + b'z' * (lim + 64) + b'"}\n' + body[0] + b'\n'})
+    for c, (icls, iout, _) in zip(fcases, streamlib.impl_stream(cfgs[0], fcases)):
+        chk.count(); chk.nontriv(('failing-run', c.get('rfail', 'toolong')))
+        bad = None
+        if iout and not iout.endswith(b'\n'): bad = 'the output does not end with a complete line'
+        else:
+            for ol in iout.split(b'\n')[:-1]:
+                t = jtree.parse(ol)
+                if t is None or jtree.kind(t) != 'obj': bad = 'an emitted line is not one JSON object'; break
+        if bad:
+            chk.violate('run that fails part-way: ' + bad, {'fault': 'read error at offset %d' % c['rfail'] if 'rfail' in c else 'a line over the reader limit at the end', 'input_bytes': len(c['data']),
+                        'result': icls, 'output_bytes': len(iout), 'output_tail': iout[-200:].decode('utf-8', 'replace')}, tags=['partial-line'])
+    chk.streams.append({'stream': 'long logs whose run fails part-way (read error, over-long line): every emitted line is a whole JSON object', 'cases': len(fcases)})
     chk.streams.append({'stream': 'CLI file -> file, shape of every emitted line', 'lines': len(sel)})
     chk.sample({'cfg': cfgs[1].describe(), 'input': lines[len(streams.fixture_lines()) + 1].decode('utf-8', 'replace')[:600]})
     chk.sample({'input': lines[-1].decode('utf-8', 'replace')[:400]})
